@@ -225,6 +225,26 @@ CHECKS = {
             "issubset/issuperset is modelled by the builder's union (NFA.union itself belongs to C08); the comparator can answer "
             "'out of fuel' on very large operands (reported, never silently accepted).",
             "Defect demonstrated on the unrepaired tree: a blank-only regex passes validate but from_regex raises IndexError.", "7/C11"),
+    "C15": ("Coq theorems about mirror / specification models of the DFA language constructors + differential correspondence "
+            "(exact tables, proved comparator, word-level predicates, executable minimality test)",
+            "Proved for all alphabets, all parameters, both values of every flag, partial and complete forms, and all words over all "
+            "symbols (unbounded): from_prefix, from_subsequence, of_length (with symbols_to_count), count_mod (remainder sets, "
+            "symbols_to_count), nth_from_start, nth_from_end (2^n-state shift register; one-symbol alphabets delegate to of_length), "
+            "universal_language, empty_language build a valid DFA accepting exactly the words over the alphabet that satisfy the "
+            "declarative predicate of Spec/Preds.v (its complement within the alphabet when contains=False); refusals (k=0, n=0, symbol "
+            "outside the alphabet) as the code. from_substring / from_suffix: specification model (state = longest prefix of the pattern "
+            "that is a suffix of the text read, defined by trying lengths from long to short; the KMP table is not modelled) proved to "
+            "accept exactly 'contains the substring' / 'has the suffix', incl. the empty pattern. Model tied to the code by exact table "
+            "equality + proved comparator (all words) + validity on every pattern of length <= 4 over 1-3 symbols and all small numeric "
+            "parameters. from_substrings / from_finite_language: no Coq model - judged on every run against the Coq boolean predicates "
+            "(proved equivalent to the declarative ones) on all words up to length 6-7, an independent Python predicate, and (all words) "
+            "the obvious NFA / trie built by the harness through the proved comparators. Minimality: executable is_minimal evaluated by "
+            "the extracted code on every result whose docstring promises the minimal DFA; its soundness is proved from the Myhill-Nerode "
+            "lower bound taken as a hypothesis (C15_is_minimal_sound_partial; the lower bound itself is C05_nerode_lower_bound, so the "
+            "full statement C15_is_minimal_sound_statement closes by one application after the merge). Not proved: that the models' "
+            "own results are minimal for all parameters (C15_constructors_minimal_statement; a bounded instance is computed).",
+            "Open known finding: from_substrings with the empty string inside the pattern set and must_be_suffix=True. Fixed by the lead "
+            "(trial hunk): from_suffix / from_substring(must_be_suffix=True) with an empty pattern raised IndexError.", "7/C15"),
 }
 
 PENDING = {}
